@@ -126,7 +126,7 @@ class VSA:
                         if v is None:
                             # single-exit style: a local every definition of which is a constant
                             x_ = g.nodes[g.strip(m["c"][0])]
-                            dl_ = [d_ for d_ in q.local_defs(g).get(x_["ref"]["id"], []) if d_[0] != "addr"] if x_["k"] == "DeclRefExpr" and x_["ref"].get("dk") == "local" else []
+                            dl_ = [d_ for d_ in q.local_defs(g).get(x_["ref"]["id"], []) if d_[0] != "addr" and not (d_[0] == "decl" and d_[2] is None)] if x_["k"] == "DeclRefExpr" and x_["ref"].get("dk") == "local" else []      # `usize result;` defines no value
                             cs_ = [fin.eval_expr(g, d_[2], {}) if d_[2] is not None else None for d_ in dl_]
                             if dl_ and all(c_ is not None for c_ in cs_) and not any(d_[0] == "addr" for d_ in q.local_defs(g).get(x_["ref"]["id"], [])):
                                 vals += [(c_, c_) for c_ in cs_]
